@@ -1,7 +1,14 @@
 import NanoVerif.Model.DriverMain
-/-! line-protocol driver of C06 (must not import Mathlib, directly or indirectly); stub until the family exists -/
+import NanoVerif.Driver.Loss
+import NanoVerif.Driver.Functions
+/-! line-protocol driver of C06 (must not import Mathlib, directly or indirectly) -/
 open NanoVerif
 
-def handle (_fam : String) (_rest : List String) : Option String := none
+def handle (fam : String) (rest : List String) : Option String :=
+  match fam with
+  | "loss" => Driver.Loss.handle rest
+  | "fn" => Driver.Functions.handleFn rest
+  | "ct" => Driver.Functions.handleCt rest
+  | _ => none
 
 def main : IO Unit := DriverMain.run handle
